@@ -775,6 +775,9 @@ class Interp:
         return self.lib.await_(self, v, node)
 
     def e_Call(self, node, env):
+        if isinstance(node.func, ast.Name) and node.func.id == "super" and not node.args:
+            fn = self._enclosing_func(env)
+            return SuperV(fn.defcls, self._first_arg(env))
         f = self.eval(node.func, env)
         args = []
         for a in node.args:
